@@ -168,7 +168,7 @@ for _name, _doc in list(EXTRA_SKELETONS.items()) + [("rest", SKELETONS["rest"])]
 _P3Q = set(random.Random(SEED + 1).sample(range(len(_P3)), 20))
 for _i, (_name, _ind, _pos, _d) in enumerate(_P3):
     _q = _i in _P3Q or _pos == len(_d) or _pos == 0
-    ob("C15", "P3.absorb.%s.i%d.ins%03d" % (_name, _ind, _pos), {"c": CP}, tier="quick" if _q else "thorough", T=150,
+    ob("C15", "P3.absorb.%s.i%d.ins%03d" % (_name, _ind, _pos), {"c": CP}, tier="quick" if _q else "thorough", T=300,
        funcs=["cdd.shared.docstring_parsers.parse_docstring", "cdd.shared.docstring_parsers._parse_phase_rest", "cdd.shared.docstring_parsers._set_param_values",
               "cdd.shared.docstring_parsers._fill_doc_with_afterward"],
        bound="%s docstring with footer (indent %d) and ANY code point inserted at offset %d: no header/footer prose inside any typ/default" % (_name, _ind, _pos))(_absorb(_d, _pos))
